@@ -11,7 +11,7 @@ TRUSTED_BASE = [
     'a sample of every run\'s cases is re-evaluated inside Coq with vm_compute and compared with the extracted model',
 ]
 
-LOOP_RULE = 'histories of 5-40 events (plus a quiescing tail) through the PRODUCTION event loop on socketpairs with a real poller and task queue: 1-3 clients, 2-3 backend nodes (layouts: full coverage / an unowned slot / an undialable node / two nodes; optional password handshake; optional 15 ms request timeout; optional 60- or 100-byte limit); clients send 1-3 requests per read (single-key incl. EVAL/EVALSHA and other table commands in mixed case, AUTH with right/wrong/unexpected password, MGET/DEL/MSET over several slots, PING, unknown command, wrong arity, QUIT, keys that make the fake backend answer an error / MOVED to a known node / MOVED to an unknown node / ASK, also inside split MGET/DEL/MSET), sometimes cut inside a request; task rounds; backends answer 1-3 pending fragments, sometimes with the reply cut in two reads (the second part at once, or held back until the next answer of that node so that other events fall between the halves); MGET keys with the marker big (30 bytes more in the value: the assembled reply exceeds a 60/100-byte limit that each fragment respects); client closes; backend closes; timeout scans after a real sleep; ticker rounds that send the CLUSTER NODES probe on a random node (dialling if needed); plus 60 (quick) topology histories on four nodes in which the ticker applies topologies adopted from CLUSTER NODES texts by the production topology code while requests are in flight (slot migration, removal of a node, demotion of a master to a replica, promotion); plus deep-backlog histories (one slow request at the head, 1025-1224 completed replies behind it). Nondeterminism of the Go code (map iteration order within one request, dial order) is recorded from the run and given to the model as oracle. distinct = distinct history; non-trivial = history contains at least one of the tagged situations (input_distribution shows how often each occurred)'
+LOOP_RULE = 'histories of 5-40 events (plus a quiescing tail) through the PRODUCTION event loop on socketpairs with a real poller and task queue: 1-3 clients, 2-3 backend nodes (layouts: full coverage / an unowned slot / an undialable node / two nodes; 20% of the layouts allow two connections per node and keep to single-key requests; optional password handshake; optional 15 ms request timeout; optional 60- or 100-byte limit); clients send 1-3 requests per read (single-key incl. EVAL/EVALSHA and other table commands in mixed case, AUTH with right/wrong/unexpected password, MGET/DEL/MSET over several slots, PING, unknown command, wrong arity, QUIT, keys that make the fake backend answer an error / MOVED to a known node / MOVED to an unknown node / ASK, also inside split MGET/DEL/MSET), sometimes cut inside a request; task rounds; backends answer 1-3 pending fragments, sometimes with the reply cut in two reads (the second part at once, or held back until the next answer of that node so that other events fall between the halves); MGET keys with the marker big (30 bytes more in the value: the assembled reply exceeds a 60/100-byte limit that each fragment respects); client closes; backend closes; timeout scans after a real sleep; ticker rounds that send the CLUSTER NODES probe on a random node (dialling if needed); plus 60 (quick) topology histories on four nodes in which the ticker applies topologies adopted from CLUSTER NODES texts by the production topology code while requests are in flight (slot migration, removal of a node, demotion of a master to a replica, promotion); plus deep-backlog histories (one slow request at the head, 1025-1224 completed replies behind it). Nondeterminism of the Go code (map iteration order within one request, dial order) is recorded from the run and given to the model as oracle. distinct = distinct history; non-trivial = history contains at least one of the tagged situations (input_distribution shows how often each occurred)'
 
 PROPS = {
     'C05': {
